@@ -3,7 +3,7 @@
 //! stdin: one instant per line, `<sign> <secs> <nanos>` with sign `+` or `-`,
 //! meaning `UNIX_EPOCH (+|-) Duration::new(secs, nanos)`.
 //! stdout: one line per instant
-//!   `<sign> <secs> <nanos> | <be> <dsecs> <dnanos> | OK <year> <month> <day> <hour> <minute> <second> <nanos>`
+//!   `<sign> <secs> <nanos> | <be> <dsecs> <dnanos> | OK <year> <month> <day> <hour> <minute> <second> <nanos> | <Display text>`
 //!   `<sign> <secs> <nanos> | <be> <dsecs> <dnanos> | PANIC <message>`
 //!   `<sign> <secs> <nanos> | UNREPRESENTABLE`
 //! where `<be> <dsecs> <dnanos>` is what `duration_since(UNIX_EPOCH)` answers for
@@ -48,12 +48,17 @@ fn main() {
             Ok(d) => (0, d),
             Err(e) => (1, e.duration()),
         };
-        let r = panic::catch_unwind(|| tracing_subscriber::fmt::time::__verif_datetime::fields(t));
+        let r = panic::catch_unwind(|| {
+            let f = tracing_subscriber::fmt::time::__verif_datetime::fields(t);
+            let mut s = String::new();
+            tracing_subscriber::fmt::time::__verif_datetime::write(t, &mut s).expect("fmt");
+            (f.0, f.1, f.2, f.3, f.4, f.5, f.6, s)
+        });
         match r {
             Ok(f) => writeln!(
                 out,
-                "{} {} {} | {} {} {} | OK {} {} {} {} {} {} {}",
-                p[0], secs, nanos, be, dd.as_secs(), dd.subsec_nanos(), f.0, f.1, f.2, f.3, f.4, f.5, f.6
+                "{} {} {} | {} {} {} | OK {} {} {} {} {} {} {} | {}",
+                p[0], secs, nanos, be, dd.as_secs(), dd.subsec_nanos(), f.0, f.1, f.2, f.3, f.4, f.5, f.6, f.7
             )
             .unwrap(),
             Err(e) => {
